@@ -6,6 +6,12 @@ here = os.path.dirname(os.path.abspath(__file__))
 root = os.path.dirname(here)
 props = [json.loads(l) for l in open(os.path.join(root, 'properties.jsonl'))]
 claims = json.load(open(os.path.join(here, 'claims.json')))
+# rules of other properties' checks that a check also runs (checker/rules/shared.go, table Includes)
+import re
+inc = {}
+src = open(os.path.join(root, 'checker', 'rules', 'shared.go')).read()
+for m in re.finditer(r'^\t"(C\d\d)":\s*\{([^}]*)\}', src, re.M):
+    inc[m.group(1)] = re.findall(r'"([^"]+)"', m.group(2))
 checks, na = [], []
 for p in props:
     pid = p['id']
@@ -20,14 +26,14 @@ for p in props:
         "evidence_file": "/verif/evidence/%s.json" % pid,
         "replay_cmd_template": "./check %s --replay {path}" % pid,
         "engine": "cecheck",
-        "level_claimed": {"category": c.get('level', 'other'), "text": c['text'], "design_ref": "DESIGN.md section 4, %s" % pid},
+        "level_claimed": {"category": c.get('level', 'other'), "text": c['text'] + ((" The check also runs, as further necessary conditions of this property, these rules of other properties' checks (prefix = all rules of that property; reported as %s.shared/<rule>): %s." % (pid, ", ".join(inc[pid]))) if inc.get(pid) else ""), "design_ref": "DESIGN.md section 4, %s" % pid},
         "level_note": c['note'],
         "technique": c['technique'],
     })
 m = {
     "version": 1,
     "setup_cmd": "./setup.sh",
-    "hooks": {"guard": "verif", "enable": "no hooks: the checks analyse /repo's source statically under the default build tags (thorough tier adds -tags purego and GOARCH=386)",
+    "hooks": {"guard": "verif", "enable": "no hooks: the checks analyse /repo's source statically under the default build tags (thorough tier adds -tags purego and GOARCH=arm64; the pinned tree does not type-check under GOARCH=386)",
               "baseline_off_cmd": "cd /repo && GOFLAGS=-mod=mod GOPROXY=off GOSUMDB=off go test -vet=off -count=1 -timeout 25m ./...",
               "source_commits": [], "add_only": True},
     "engines": [{"name": "cecheck", "path": "/verif/checker", "serves_properties": [c["property_id"] for c in checks],
